@@ -46,6 +46,13 @@ CLAIMED.update({
             "7 C14"),
 })
 
+CLAIMED.update({
+    "C08": ("Coq proof (invariants of the priority-ordered masking scan: soundness, disjointness, coverage; charge arithmetic) + extracted-model correspondence on rendered compositions and malformed names + composition oracle",
+            "Theorems in Props/C08.v, for every table configuration without blanks in a symbol: components are tried longest first; every match is an occurrence of a configured symbol in the name; characters claimed by one symbol are never re-read as another (Si never S+i); every character of an accepted name is a digit or inside a matched symbol, hence names with a foreign character are rejected; the net charge is the number of trailing '+' minus trailing '-'. Closed computations on the tables regenerated from /repo give the examples of the property text. Tied to Species by comparing every field (counts in order, groups, charge, basename, gasname, alias, mass number, is_atom, is_electron, ==, hash key) with the extracted model over five table configurations.",
+            "The composition round trip (render -> parse gives back the composition) is decided per generated name by the oracle under the decidable `unambiguous` premise, not yet proved for a class of names; regular-expression metacharacters other than a backslash escape are outside the model; the '*' label is a known finding.",
+            "7 C08"),
+})
+
 NOT_YET = {}
 
 
